@@ -48,6 +48,10 @@ fn main() {
     let mut runs: Option<u64> = None;
     let mut only: Option<String> = None;
     let mut verbose = false;
+    let mut offset: u64 = 0;
+    let mut stride: u64 = 1;
+    let mut rundir: Option<String> = None;
+    let mut selftest = false;
     let mut pos: Vec<String> = vec![];
     let mut i = 2;
     while i < args.len() {
@@ -70,6 +74,10 @@ fn main() {
             "--runs" => runs = Some(val().parse().unwrap_or_else(|_| usage())),
             "--scenario" => only = Some(val()),
             "-v" => verbose = true,
+            "--offset" => offset = val().parse().unwrap_or_else(|_| usage()),
+            "--stride" => stride = val().parse().unwrap_or_else(|_| usage()),
+            "--rundir" => rundir = Some(val()),
+            "--selftest" => selftest = true,
             _ => pos.push(a.clone()),
         }
         i += 1;
@@ -123,6 +131,86 @@ fn main() {
                 let _ = std::fs::write(&p, serde_json::to_string_pretty(&v).unwrap());
             }
             std::process::exit(exit);
+        }
+        "worker" => {
+            let prop = pos.first().cloned().unwrap_or_else(|| usage());
+            let name = only.clone().unwrap_or_else(|| usage());
+            let e = reg.iter().find(|e| e.scn.property() == prop && e.scn.name() == name).unwrap_or_else(|| usage());
+            let rd = PathBuf::from(rundir.unwrap_or_else(|| usage()));
+            let code = if selftest {
+                selftest_worker(e.scn, seed, runs.unwrap_or(2000), offset, stride, &rd)
+            } else {
+                let opts = BatchOpts { tier, seed, jobs: 1, max_runs: runs.unwrap_or(1), budget_s: budget.unwrap_or(60.0) };
+                worker_main(e.scn, &opts, offset, stride, &rd)
+            };
+            std::process::exit(code);
+        }
+        "one" => {
+            // vh one <Cxx> --scenario name --offset <run> [-v]: execute one run index, print outcome
+            let prop = pos.first().cloned().unwrap_or_else(|| usage());
+            let e = reg.iter().find(|e| e.scn.property() == prop && only.as_ref().map(|o| o == e.scn.name()).unwrap_or(true)).unwrap_or_else(|| usage());
+            let plan = plan_for(e.scn, seed, offset, tier);
+            let mut sched = sched_for(e.scn, seed, offset);
+            sched.trace = true;
+            eprintln!("plan: {}", plan);
+            eprintln!("strategy: {}", sched.strategy.name());
+            let rep = e.scn.execute_json(&plan, &sched);
+            if let Some(sim) = &rep.sim {
+                let n = sim.trace.len();
+                let from = if verbose { 0 } else { n.saturating_sub(60) };
+                for ev in &sim.trace[from..] {
+                    eprintln!("  step {:>5} t{} {:<28} {}:{}", ev.step, ev.tid, ev.op, ev.file, ev.line);
+                }
+                eprintln!("end={:?} steps={} switches={} panics={:?}", sim.end, sim.steps, sim.switches, sim.panics);
+            }
+            eprintln!("violation: {:?}", rep.violation);
+            eprintln!("faults: {:?}", rep.faults);
+            eprintln!("obs: {}", rep.observations.chars().take(3000).collect::<String>());
+        }
+        "debug-seq" => {
+            let prop = pos.first().cloned().unwrap_or_else(|| usage());
+            let e = reg.iter().find(|e| e.scn.property() == prop && only.as_ref().map(|o| o == e.scn.name()).unwrap_or(true)).unwrap_or_else(|| usage());
+            let mut run = offset;
+            let mut prev_plan = String::new();
+            while run < runs.unwrap_or(1000) {
+                let plan = plan_for(e.scn, seed, run, tier);
+                let mut sched = sched_for(e.scn, seed, run);
+                sched.trace = true;
+                let a = e.scn.execute_json(&plan, &sched);
+                flush_epoch();
+                let b = e.scn.execute_json(&plan, &sched);
+                flush_epoch();
+                let (x, y) = (a.sim.unwrap(), b.sim.unwrap());
+                if x.schedule_hash != y.schedule_hash {
+                    eprintln!("run {} diverges; plan {} ; previous plan {}", run, plan, prev_plan);
+                    for (i, (p, q)) in x.trace.iter().zip(y.trace.iter()).enumerate() {
+                        if p.line != q.line || p.tid != q.tid {
+                            eprintln!("  idx {} A=t{} {} {}:{} B=t{} {} {}:{}", i, p.tid, p.op, p.file, p.line, q.tid, q.op, q.file, q.line);
+                            break;
+                        }
+                    }
+                }
+                prev_plan = plan.to_string();
+                run += stride;
+            }
+        }
+        "debug-twice" => {
+            let prop = pos.first().cloned().unwrap_or_else(|| usage());
+            let e = reg.iter().find(|e| e.scn.property() == prop && only.as_ref().map(|o| o == e.scn.name()).unwrap_or(true)).unwrap_or_else(|| usage());
+            let plan = plan_for(e.scn, seed, offset, tier);
+            let mut sched = sched_for(e.scn, seed, offset);
+            sched.trace = true;
+            eprintln!("plan: {}", plan);
+            for round in 0..3 {
+                let rep = e.scn.execute_json(&plan, &sched);
+                flush_epoch();
+                if let Some(sim) = &rep.sim {
+                    eprintln!("round {} steps={} hash={:x}", round, sim.steps, sim.schedule_hash);
+                    for ev in sim.trace.iter().take(12) {
+                        eprintln!("  step {:>5} t{} {:<28} {}:{}", ev.step, ev.tid, ev.op, ev.file, ev.line);
+                    }
+                }
+            }
         }
         "replay" => {
             let file = pos.first().cloned().unwrap_or_else(|| usage());
